@@ -45,11 +45,12 @@ import (
 )
 
 type fnTarget struct {
-	fn     string   // package-relative qualified name, as for arithTargets
-	name   string   // Lean name
-	leaf   string   // "" = whole function; else the assigned variable / selector (source text)
-	inline []string // leaf only: earlier assignments to these names are substituted
-	nth    int      // leaf only: which assignment (1 = first; 0 = last)
+	fn          string   // package-relative qualified name, as for arithTargets
+	name        string   // Lean name
+	leaf        string   // "" = whole function; else the assigned variable / selector (source text)
+	inline      []string // leaf only: earlier assignments to these names are substituted
+	nth         int      // leaf only: which assignment (1 = first; 0 = last)
+	scalarsOnly bool     // whole function: assignments to fields that are no integers / booleans are dropped (named in the doc comment)
 	// results
 	lean  string
 	found bool
@@ -98,6 +99,12 @@ var fnTargets = []*fnTarget{
 	{fn: "vm.StateTransition.refundGas", name: "olvmRemaining", leaf: "remaining"},
 	// C14 fund distribution
 	{fn: "action/governance.getPercentageCoin", name: "govPercentageAmount", leaf: "amount"},
+	// C20 domain record predicates and the expiry a purchase writes
+	{fn: "data/ons.Domain.IsChangeable", name: "domainIsChangeable"},
+	{fn: "data/ons.Domain.IsActive", name: "domainIsActive"},
+	{fn: "data/ons.Domain.IsExpired", name: "domainIsExpired"},
+	{fn: "data/ons.Domain.AddToExpire", name: "domainAddToExpire"},
+	{fn: "data/ons.Domain.ResetAfterSale", name: "domainResetAfterSale", scalarsOnly: true},
 	// C20 legacy helper
 	{fn: "data/ons.CalculateDomainExpiry", name: "calculateDomainExpiry"},
 }
@@ -105,18 +112,21 @@ var fnTargets = []*fnTarget{
 type fparam struct{ name, typ string }
 
 type fctx struct {
-	info    *types.Info
-	pkg     *packages.Package
-	params  []fparam
-	seen    map[string]bool
-	locals  map[string]bool
-	err     string
-	subst   map[string]ast.Expr // leaf inlining
-	byObj   map[*types.Func]*fnTarget
-	results []fparam // named results
-	mutated []string // receiver fields assigned (pointer receiver)
-	recv    string
-	dropped []string
+	info        *types.Info
+	pkg         *packages.Package
+	params      []fparam
+	seen        map[string]bool
+	locals      map[string]bool
+	err         string
+	subst       map[string]ast.Expr // leaf inlining
+	byObj       map[*types.Func]*fnTarget
+	results     []fparam // named results
+	mutated     []string // receiver fields assigned (pointer receiver)
+	recv        string
+	dropped     []string
+	scalarsOnly bool
+	skipped     []string
+	mutTypes    map[string]string
 }
 
 func (c *fctx) fail(msg string) {
@@ -277,6 +287,10 @@ func (c *fctx) expr(e ast.Expr) (string, string) {
 	case *ast.Ident:
 		if x.Name == "nil" {
 			return "false", "E"
+		}
+		if _, bad := c.subst["\x00poisoned:"+x.Name]; bad {
+			c.fail("the inlined variable " + x.Name + " is assigned under a condition that does not enclose this use")
+			return "0", "I"
 		}
 		if s, ok := c.subst[x.Name]; ok {
 			saved := c.subst
@@ -582,6 +596,10 @@ func (c *fctx) lhsName(e ast.Expr) string {
 			}
 			if !found {
 				c.mutated = append(c.mutated, n)
+				if c.mutTypes == nil {
+					c.mutTypes = map[string]string{}
+				}
+				c.mutTypes[n] = leanTyp(kindOf(c.typeOf(x)))
 			}
 		}
 		return n
@@ -594,9 +612,6 @@ func (c *fctx) lhsName(e ast.Expr) string {
 func (c *fctx) retTuple(vals []string) string {
 	all := append([]string{}, vals...)
 	all = append(all, c.mutatedPlaceholders()...)
-	if len(all) == 1 {
-		return all[0]
-	}
 	return "(" + strings.Join(all, ", ") + ")"
 }
 
@@ -685,6 +700,24 @@ func (c *fctx) block(stmts []ast.Stmt, rest func(string) string, ind string) str
 	case *ast.AssignStmt:
 		if len(x.Rhs) == 1 && len(x.Lhs) >= 1 {
 			if len(x.Lhs) == 1 {
+				if c.scalarsOnly && (x.Tok == token.ASSIGN || x.Tok == token.DEFINE) {
+					k := kindOf(c.typeOf(x.Lhs[0]))
+					isNil := false
+					if id, ok := x.Rhs[0].(*ast.Ident); ok && id.Name == "nil" {
+						isNil = true
+					}
+					if k == "" || k == "E" || isNil {
+						d := strings.Join(strings.Fields(plain(x.Lhs[0])), " ")
+						dup := false
+						for _, o := range c.skipped {
+							dup = dup || o == d
+						}
+						if !dup {
+							c.skipped = append(c.skipped, d)
+						}
+						return next()
+					}
+				}
 				var v string
 				switch x.Tok {
 				case token.DEFINE, token.ASSIGN:
@@ -789,7 +822,7 @@ func (c *fctx) block(stmts []ast.Stmt, rest func(string) string, ind string) str
 
 func (t *fnTarget) translateFn(fd *ast.FuncDecl, pkg *packages.Package, byObj map[*types.Func]*fnTarget) {
 	t.found = true
-	c := &fctx{info: pkg.TypesInfo, pkg: pkg, seen: map[string]bool{}, locals: map[string]bool{}, byObj: byObj}
+	c := &fctx{info: pkg.TypesInfo, pkg: pkg, seen: map[string]bool{}, locals: map[string]bool{}, byObj: byObj, scalarsOnly: t.scalarsOnly}
 	src := ""
 	if t.leaf != "" {
 		// the last assignment to the leaf, with earlier assignments to the inlined names substituted
@@ -798,18 +831,56 @@ func (t *fnTarget) translateFn(fd *ast.FuncDecl, pkg *packages.Package, byObj ma
 			inl[n] = true
 		}
 		cur := map[string]ast.Expr{}
+		poisoned := map[string]bool{} // inlined names assigned under a condition the use does not share
+		type asg struct {
+			name string
+			path []ast.Node
+		}
+		var earlier []asg
+		var stack []ast.Node
 		var rhs ast.Expr
 		var rhsEnv map[string]ast.Expr
 		seenLeaf := 0
+		isPrefix := func(a, b []ast.Node) bool {
+			if len(a) > len(b) {
+				return false
+			}
+			for i := range a {
+				if a[i] != b[i] {
+					return false
+				}
+			}
+			return true
+		}
 		ast.Inspect(fd.Body, func(n ast.Node) bool {
+			if n == nil {
+				stack = stack[:len(stack)-1]
+				return true
+			}
+			stack = append(stack, n)
 			as, ok := n.(*ast.AssignStmt)
 			if !ok || len(as.Lhs) != 1 || len(as.Rhs) != 1 {
 				return true
+			}
+			// the path of enclosing blocks (a definition made inside an if / loop / closure body
+			// does not reach a use outside that body)
+			var path []ast.Node
+			for _, x := range stack {
+				if _, isBlock := x.(*ast.BlockStmt); isBlock {
+					path = append(path, x)
+				}
 			}
 			name := plain(as.Lhs[0])
 			snapshot := map[string]ast.Expr{}
 			for k, v := range cur {
 				snapshot[k] = v
+			}
+			for _, e := range earlier {
+				if !isPrefix(e.path, path) {
+					poisoned[e.name] = true
+					delete(snapshot, e.name)
+					snapshot["\x00poisoned:"+e.name] = as.Rhs[0]
+				}
 			}
 			if name == t.leaf {
 				seenLeaf++
@@ -820,6 +891,7 @@ func (t *fnTarget) translateFn(fd *ast.FuncDecl, pkg *packages.Package, byObj ma
 			if inl[name] {
 				substBefore[as.Rhs[0]] = snapshot
 				cur[name] = as.Rhs[0]
+				earlier = append(earlier, asg{name, path})
 			}
 			return true
 		})
@@ -885,7 +957,9 @@ func (t *fnTarget) translateFn(fd *ast.FuncDecl, pkg *packages.Package, byObj ma
 		k := kindOf(c.typeOf(p.Type))
 		for _, n := range p.Names {
 			if k == "" || k == "E" {
-				c.fail("unsupported parameter type of " + n.Name)
+				if !t.scalarsOnly {
+					c.fail("unsupported parameter type of " + n.Name)
+				}
 				continue
 			}
 			declared = append(declared, fparam{sanitize(n.Name), leanTyp(k)})
@@ -937,8 +1011,8 @@ func (t *fnTarget) translateFn(fd *ast.FuncDecl, pkg *packages.Package, byObj ma
 		body = strings.ReplaceAll(body, mutMark, "()")
 	} else {
 		body = strings.ReplaceAll(body, mutMark, mut)
-		for range c.mutated {
-			resTypes = append(resTypes, "Int")
+		for _, m := range c.mutated {
+			resTypes = append(resTypes, c.mutTypes[m])
 		}
 	}
 	rt := strings.Join(resTypes, " × ")
@@ -951,6 +1025,9 @@ func (t *fnTarget) translateFn(fd *ast.FuncDecl, pkg *packages.Package, byObj ma
 	}
 	if len(c.mutated) > 0 {
 		doc += "; returns the new " + mut + " after the results"
+	}
+	if len(c.skipped) > 0 {
+		doc += "; assignments to fields that are no integers or booleans are not part of the translation: " + strings.Join(c.skipped, ", ")
 	}
 	t.lean = fmt.Sprintf("/-- %s -/\ndef %s%s : %s :=\n%s\n", doc, t.name, paramList(c.params), rt, body)
 	t.npar = len(c.params)
